@@ -22,6 +22,7 @@ bx = [None] * NH
 hi = [None] * NH
 hd = [None] * NH
 ar = [None] * NH
+bg = [None] * NH
 
 
 QUIET = [False]
@@ -224,6 +225,28 @@ def do_op(k, name, a, b, text):
             return out_
         lst = prepared(("can", a, b), mkn)
         res(k, simlib.charArrLen(lst, len(lst)))
+    elif name == "bag_new":
+        bg[a] = simlib.Bag(prepared(("bagv", b), lambda: [i for i in range(1, b + 1)]))
+        res(k)
+    elif name == "bag_total":
+        res(k, bg[a].total())
+    elif name == "bag_delete":
+        bg[a] = None
+        res(k)
+    elif name == "bag_tmp":
+        t = simlib.Bag(prepared(("bagv", a), lambda: [i for i in range(1, a + 1)]))
+        res(k, t.total())
+        del t
+    elif name == "bad_bag_new":
+        def mkbb():
+            lst = [i for i in range(1, a + 1)]
+            lst[b % len(lst)] = bad_value(1 + b % 5)
+            return lst
+        try:
+            simlib.Bag(prepared(("bbag", a, b), mkbb))
+            res(k, "NOERROR")
+        except BaseException as e:
+            res(k, "EXC", type(e).__name__)
     elif name == "pt_sum":
         res(k, simlib.ptSum(prepared(("pt", a), lambda: simlib.Pt(a, a + 0.5))))
     elif name == "pt_tmp":
